@@ -43,6 +43,10 @@ def step (_ : Unit) (toks : List String) : Unit × String :=
     match unhex root, unhex p with
     | some r, some q => ((), classify (resolve r q))
     | _, _ => ((), "bad-op")
+  | ["path", root, p, _rawTarget] =>   -- the raw request target is for the harness only (it builds the URL from it)
+    match unhex root, unhex p with
+    | some r, some q => ((), classify (resolve r q))
+    | _, _ => ((), "bad-op")
   | _ => match GoLib.step toks with
     | some o => ((), o)
     | none => ((), "bad-op")
